@@ -96,6 +96,15 @@ func (cx *threadCtx) do(c fsx.Call) (res fsx.Res) {
 		return fsx.Res{Kind: fsx.ErrKind(cx.view.SetUser(cx.view.User()))}
 	}
 
+	if c.Op == "ChownSelf" || c.Op == "LchownSelf" { // the owner (or somebody else) asks for the ids of the calling view's user
+		u := cx.view.User()
+		if c.Op == "ChownSelf" {
+			return fsx.Res{Kind: fsx.ErrKind(cx.view.Chown(c.A, u.Uid(), u.Gid()))}
+		}
+
+		return fsx.Res{Kind: fsx.ErrKind(cx.view.Lchown(c.A, u.Uid(), u.Gid()))}
+	}
+
 	if !strings.HasPrefix(c.Op, "H.") && !strings.HasPrefix(c.Op, "SH.") {
 		return fsx.Do(cx.view, c)
 	}
